@@ -56,7 +56,9 @@ Qed.
 Print Assumptions C28_guards_partial.
 
 Theorem C28_fixes_present : key_fields_skips_empty && det_start_guards_rate && det_rate_le_1_keeps && http_has_panic_catcher &&
-  validation_rejects_negative_durations && rates_clamped = true.
+  validation_rejects_negative_durations && rates_clamped && batch_ticker_clamped &&
+  (ema_throughput_interval_bounded && duration_bounds_keep_fraction) && rules_draw_guarded &&
+  queue_sizes_validated_nonnegative = true.
 Proof. exact fixes_present. Qed.
 Print Assumptions C28_fixes_present.
 
@@ -71,17 +73,18 @@ Theorem C28_negative_duration_refuted_before_fix :
 Proof. exact ticker_refuted_before_fix. Qed.
 Print Assumptions C28_negative_duration_refuted_before_fix.
 
-(* KNOWN FINDING (not fixed, known_findings/C28.json): EMAThroughputSampler with a non-zero AdjustmentInterval
-   below 1ms passes validation and panics on the first trace. *)
-Theorem C28_ema_throughput_interval_refuted :
-  exists d, duration_accepted true d = true /\ ema_throughput_first_decision d = None.
-Proof. exact ema_interval_refuted. Qed.
-Print Assumptions C28_ema_throughput_interval_refuted.
+(* EMAThroughputSampler.AdjustmentInterval: dynsampler-go refuses a non-zero interval below 1ms (its Start error is not
+   looked at, the first decision then writes to a nil map). The rules metadata now carries the bound and durations are
+   compared with bounds without truncation to whole milliseconds (both facts regenerated from the source). *)
+Theorem C28_ema_throughput_interval_safe : forall d,
+  ema_interval_accepted ema_bound_present d = true -> ema_throughput_first_decision d <> None.
+Proof. exact ema_interval_gen_safe. Qed.
+Print Assumptions C28_ema_throughput_interval_safe.
 
-Theorem C28_ema_throughput_interval_partial : forall d,
-  d = 0 \/ 1000000 <= d -> ema_throughput_first_decision d <> None.
-Proof. exact ema_interval_partial. Qed.
-Print Assumptions C28_ema_throughput_interval_partial.
+Theorem C28_ema_throughput_interval_refuted_before_fix :
+  exists d, ema_interval_accepted false d = true /\ ema_throughput_first_decision d = None.
+Proof. exact ema_interval_refuted_before_fix. Qed.
+Print Assumptions C28_ema_throughput_interval_refuted_before_fix.
 
 (* Negative rates (documented as "1 or less keeps everything", so accepted): clamped before the unsigned conversion now. *)
 Theorem C28_sampler_draw_never_panics : forall r,
@@ -93,15 +96,38 @@ Theorem C28_sampler_draw_unclamped_refuted : sampler_draw false (-1) = None.
 Proof. exact sampler_draw_unclamped_refuted. Qed.
 Print Assumptions C28_sampler_draw_unclamped_refuted.
 
-(* KNOWN FINDING (not fixed): Traces.BatchTimeout with 0 < d < 4ns passes validation; DirectTransmission starts
-   its dispatch goroutine with time.NewTicker(d/4) = NewTicker(0), which panics: refinery dies at startup. *)
-Theorem C28_batch_ticker_refuted : exists d, duration_accepted true d = true /\ d <> 0 /\ batch_ticker d = None.
-Proof. exact batch_ticker_refuted. Qed.
-Print Assumptions C28_batch_ticker_refuted.
+(* Traces.BatchTimeout with 0 < d < 4ns passes validation; NewTicker(d/4) = NewTicker(0) panicked at startup.
+   DirectTransmission.Start now clamps the timeout to >= 4ns. *)
+Theorem C28_batch_ticker_never_panics : forall d, batch_ticker batch_ticker_clamped d <> None.
+Proof. exact batch_ticker_gen_safe. Qed.
+Print Assumptions C28_batch_ticker_never_panics.
 
-Theorem C28_batch_ticker_partial : forall d, 4 <= d -> batch_ticker d <> None.
-Proof. exact batch_ticker_partial. Qed.
-Print Assumptions C28_batch_ticker_partial.
+Theorem C28_batch_ticker_refuted_before_fix :
+  exists d, duration_accepted true d = true /\ d <> 0 /\ batch_ticker false d = None.
+Proof. exact batch_ticker_refuted. Qed.
+Print Assumptions C28_batch_ticker_refuted_before_fix.
+
+(* RulesBasedSampler: a rule with a static SampleRate (any int, validation does not bound it) and no downstream
+   sampler never reaches rand.Intn with a non-positive argument, because of the guard `rule.SampleRate > 0`
+   (extracted from the source); with the weaker guard `!= 0` a negative rate panics. *)
+Theorem C28_rules_draw_never_panics : forall drop rate, rules_draw rules_draw_guarded drop rate <> None.
+Proof. exact rules_draw_gen_safe. Qed.
+Print Assumptions C28_rules_draw_never_panics.
+
+Theorem C28_rules_draw_weak_guard_refuted : rules_draw false false (-1) = None.
+Proof. exact rules_draw_weak_guard_refuted. Qed.
+Print Assumptions C28_rules_draw_weak_guard_refuted.
+
+(* Collection.PeerQueueSize / IncomingQueueSize: a negative size passed validation and make(chan, negative) panicked
+   at startup; the metadata now demands >= 0 (fact regenerated from configMeta.yaml). *)
+Theorem C28_worker_queue_never_panics : forall size workers,
+  1 <= workers -> queue_size_accepted queue_sizes_validated_nonnegative size = true -> worker_queue size workers <> None.
+Proof. exact worker_queue_gen_safe. Qed.
+Print Assumptions C28_worker_queue_never_panics.
+
+Theorem C28_worker_queue_refuted_before_fix : queue_size_accepted false (-1) = true /\ worker_queue (-1) 1 = None.
+Proof. exact worker_queue_refuted_before_fix. Qed.
+Print Assumptions C28_worker_queue_refuted_before_fix.
 
 (* Non-vacuity: the models compute the documented results on ordinary inputs *)
 Example C28_nonvacuous :
